@@ -29,6 +29,9 @@ CHECKS = {
  "C24": dict(level="model_checking", design="4/C24",
    text="Thrifty and NoRetransmit invariants of Exchange.tla checked exhaustively; on every enumerated and random case the real wire is judged by TLC: no message at all when the requestor holds everything, otherwise do-not-send-first-blocks = locally loaded prefix (max with the caller's value), no block inside the skipped prefix or the ignore set, none twice.",
    note=TB, technique="TLC exhaustive model + TLC batch oracle over real executions"),
+ "C07": dict(level="model_checking", design="4/C07",
+   text="TLC enumerates every budget case (all link trees up to 4 (thorough 5) visits x requestor store {empty, full, full minus one block} x responder store {full, full minus one} x budget 1..N+2 x 8 placements: requestor/responder, global option, per-request hook, both with either one smaller); each is run on real GraphSync nodes and judged by ExchangeOracle.tla (C07OK): no budget failure when the traversal fits, otherwise exactly N link loads then a budget-exceeded error (requestor) or failure status with N metadata entries (responder).",
+   note=TB + "; a missing block uses up one unit of go-ipld-prime's link budget, so a run is accepted if it satisfies the statement reading 'blocks needed' as link visits or as blocks loaded", technique="TLC enumeration of the bounded configuration space + TLC batch oracle over real executions"),
 }
 NA_REASON = "not built yet in this round (check under construction; see DESIGN.md section 4 for the plan)"
 def main():
